@@ -44,6 +44,23 @@ pub fn gen(tier: &str, seed: u64, emit: &mut dyn FnMut(String)) {
         }
         emit(format!("ALLOC {} {}", hex(&warm), hex(&m.bytes())));
     }
+    // the section chain alone: a stable section (20..1000 bytes, one to six packets) transmitted 3 times (warm-up) and then 20
+    // more times: the re-assembly buffer is re-used, nothing is allocated; every transmission is delivered
+    for i in 0..(if big { 400 } else { 40 }) {
+        let compact = i % 2 == 1;
+        let l = *rng.pick(&[20usize, 100, 180, 181, 200, 365, 400, 512, 513, 700, 1000, 1021]);
+        let mut s = vec![rng.byte(), (if compact { 0x00 } else { 0x80 }) | 0x30 | ((l >> 8) as u8 & 0x0f), l as u8]; let body = rng.bytes(l); s.extend(body);
+        let mut m = Mux::new();
+        // one packetisation per case: the warm-up must have needed the re-assembly buffer as much as the steady part does
+        let mut pk: Vec<Vec<u8>> = { let mut one = Mux::new(); one.psi(0x40, &s, 0, rng.below(3), &mut rng); one.pkts };
+        for p in pk.iter_mut() { p[3] &= 0xf0; }
+        for _ in 0..3 { for p in pk.iter() { m.pkts.push(p.clone()); } }
+        let nw = m.pkts.len();
+        for _ in 0..20 { for p in pk.iter() { m.pkts.push(p.clone()); } }
+        let mut line = format!("SECA {} {}", compact as u8, nw); for p in m.pkts.iter() { line.push(' '); line.push_str(&hex(p)); }
+        line.push_str(" #n20");
+        emit(line);
+    }
     // hostile streams of growing length over a small PID universe: retained memory must level off
     for i in 0..(if big { 24 } else { 6 }) {
         let npk = if big { 20000 + 4000 * i } else { 3000 + 1500 * i } as usize;
